@@ -515,11 +515,37 @@ var portNumbers = map[string]string{"22": "ssh", "25": "smtp", "53": "domain", "
 var protoNumbers = map[string]string{"6": "tcp", "17": "udp", "1": "icmp"}
 var protoByName = map[string]string{"tcp": "6", "udp": "17", "icmp": "1"}
 
+// log levels and ICMP types: a real ASA shows them by name, Netspoc and raw files may give numbers
+var logLevelNames = []string{"emergencies", "alerts", "critical", "errors", "warnings", "notifications", "informational", "debugging"}
+var icmpTypeNumbers = map[string]string{"echo-reply": "0", "unreachable": "3", "echo": "8", "time-exceeded": "11"}
+var icmpTypeNames = map[string]string{"0": "echo-reply", "3": "unreachable", "8": "echo", "11": "time-exceeded"}
+
 func canonBody(body string) string {
 	w := strings.Fields(body)
 	if len(w) > 1 {
 		if n, ok := protoNumbers[w[1]]; ok {
 			w[1] = n
+		}
+	}
+	// `log LEVEL`: level as number; 6 (informational) is the default and is not shown
+	for i := 2; i < len(w); i++ {
+		if w[i] == "log" && i+1 < len(w) {
+			for n, name := range logLevelNames {
+				if w[i+1] == name {
+					w[i+1] = strconv.Itoa(n)
+				}
+			}
+			if w[i+1] == "6" {
+				w = append(w[:i+1], w[i+2:]...)
+			}
+			break
+		}
+	}
+	if len(w) > 1 && w[1] == "icmp" {
+		for i := 2; i < len(w); i++ {
+			if n, ok := icmpTypeNumbers[w[i]]; ok {
+				w[i] = n
+			}
 		}
 	}
 	for i := 2; i+1 < len(w); i++ {
